@@ -1541,6 +1541,9 @@ class MacroFunction(Macro):
 
             input_args[len(self.args) - 1 :] = [(va_args_raw, va_args_exp)]
 
+        # res_tokens holds (token, is_arg) pairs. is_arg marks the tokens
+        # that # and ## produced from the arguments: they are final and
+        # are not examined for parameter names again.
         if self.has_strcat:
             res_tokens = []
             last_cat = False
@@ -1557,7 +1560,7 @@ class MacroFunction(Macro):
                         # first operand of the chain.
                         last = []
                     else:
-                        last = res_tokens.pop()
+                        last, _ = res_tokens.pop()
                         prev_white = last.prev_white
                         if not last_cat:
                             try:
@@ -1591,7 +1594,7 @@ class MacroFunction(Macro):
                         cp = copy(toadd[0])
                         cp.prev_white = prev_white
                         toadd[0] = cp
-                    res_tokens.extend(toadd)
+                    res_tokens.extend((t, True) for t in toadd)
                     placemarker = len(toadd) == 0
                     last_cat = True
                 elif tok.token == "#":
@@ -1612,18 +1615,22 @@ class MacroFunction(Macro):
                     tok.prev_white = tok.prev_white
                     last_cat = True
                     placemarker = False
-                    res_tokens.append(tok)
+                    res_tokens.append((tok, True))
                 else:
                     last_cat = False
                     placemarker = False
-                    res_tokens.append(tok)
+                    res_tokens.append((tok, False))
                 idx += 1
         else:
-            res_tokens = copy(self.replacement)
+            res_tokens = [(tok, False) for tok in self.replacement]
 
         # Substitute each occurrence of an argument in the replacement
         substituted_tokens = []
-        for token in res_tokens:
+        for token, is_arg in res_tokens:
+            if is_arg:
+                substituted_tokens.append(token)
+                continue
+
             substitution = []
 
             # If a token matches an argument, it is substituted;
